@@ -732,10 +732,29 @@ val bit : bool -> z -> z
 
 val enc_attrs : attrs -> z
 
+type xparam = z option list
+
+val pnum : z option -> z
+
+val xcol_set : z -> colour -> sgr -> sgr
+
+val sgr_sub : xparam -> sgr -> sgr
+
+type xsgr = { x_ps : z option list; x_last : xparam option }
+
+val sgr_xapply : xsgr -> sgr -> sgr
+
+val is_given : z option -> bool
+
+val xcol_wf : xparam -> bool
+
+val sgr_xwf : xsgr -> bool
+
 type item =
 | IText of str
 | ISgr of z list
 | IOther
+| ISgrX of xsgr
 
 val term_chars : item list -> sgr -> sgr list
 
@@ -870,6 +889,10 @@ val dec_attrs : z -> attrs
 val as_sgr : val0 -> sgr
 
 val v_sgr : sgr -> val0
+
+val as_optz : val0 -> z option
+
+val as_xsgr : val0 -> xsgr
 
 val as_item : val0 -> item
 
@@ -1573,7 +1596,7 @@ val as_sstate : val0 -> sstate
 
 val vsstate : sstate -> val0
 
-val as_optz : val0 -> z option
+val as_optz0 : val0 -> z option
 
 val dispatch_edit : z -> val0 -> val0 option
 
@@ -4475,7 +4498,7 @@ val as_range : val0 -> range0
 
 val as_ranges0 : val0 -> range0 list
 
-val as_optz0 : val0 -> z option
+val as_optz1 : val0 -> z option
 
 val as_fexpr : val0 -> fexpr
 
